@@ -13,14 +13,14 @@ open Marwood.Lemmas.HeapWFOps (VCell.isSymbol)
 
 /-! ## sizes -/
 
-theorem instStep_size {Q : CLambda → Prop} {h h' : CHeap} (st : InstStep Q h h') : h.cells.size ≤ h'.cells.size := by
+theorem instStep_size {Q : CHeap → CLambda → Prop} {h h' : CHeap} (st : InstStep Q h h') : h.cells.size ≤ h'.cells.size := by
   cases st with
-  | cell _ _ _ => exact cput_size h _
+  | cell _ _ _ _ => exact cput_size h _
   | sym _ _ => exact putNew_size h _
   | glob _ => exact Nat.le_refl _
   | resym _ _ => exact Nat.le_refl _
 
-theorem instSteps_size {Q : CLambda → Prop} {h h' : CHeap} (st : InstSteps Q h h') : h.cells.size ≤ h'.cells.size := by
+theorem instSteps_size {Q : CHeap → CLambda → Prop} {h h' : CHeap} (st : InstSteps Q h h') : h.cells.size ≤ h'.cells.size := by
   induction st with
   | refl _ => exact Nat.le_refl _
   | step s _ ih => exact Nat.le_trans (instStep_size s) ih
@@ -52,12 +52,12 @@ theorem GlobRoots.mono {h h' : CHeap} (gr : GlobRoots h) (m : Mono h h') (e1 : h
 
 /-! ## one step -/
 
-theorem instStep_hg {Q : CLambda → Prop} (hQ : ∀ cl, Q cl → LamOk cl) {h h' : CHeap} (st : InstStep Q h h')
+theorem instStep_hg {Q : CHeap → CLambda → Prop} (hQ : ∀ h cl, Q h cl → LamOk cl) {h h' : CHeap} (st : InstStep Q h h')
     (g : HG h) (gr : GlobRoots h) (sm : Small h') : HG h' ∧ Mono h h' ∧ GlobRoots h' := by
   cases st with
-  | @cell c nc hr _ =>
+  | @cell c nc hr _ _ =>
     have a := calloc_spec h (HInv.of_wf g.wf)
-    have r := put_core g (nc.cellOk hQ h) hr sm rfl a.globals a.globSyms (toHeap_cput (HInv.of_wf g.wf) c nc.nonsym)
+    have r := put_core g (nc.cellOk (hQ h) h) hr sm rfl a.globals a.globSyms (toHeap_cput (HInv.of_wf g.wf) c nc.nonsym)
     exact ⟨r.hg, r.mono, gr.mono r.mono r.globals r.globSyms⟩
   | @sym v name hs _ =>
     obtain ⟨tag, rfl, _⟩ := symOf_some hs
@@ -95,7 +95,7 @@ theorem instStep_hg {Q : CLambda → Prop} (hQ : ∀ cl, Q cl → LamOk cl) {h h
 
 /-! ## a sequence of steps -/
 
-theorem instSteps_hg {Q : CLambda → Prop} (hQ : ∀ cl, Q cl → LamOk cl) {h h' : CHeap} (st : InstSteps Q h h')
+theorem instSteps_hg {Q : CHeap → CLambda → Prop} (hQ : ∀ h cl, Q h cl → LamOk cl) {h h' : CHeap} (st : InstSteps Q h h')
     (g : HG h) (gr : GlobRoots h) (sm : Small h') : HG h' ∧ Mono h h' ∧ GlobRoots h' := by
   induction st with
   | refl _ => exact ⟨g, .refl _, gr⟩
